@@ -58,6 +58,7 @@ from .changes import (
     TypeAdded,
     TypeAddedToInterface,
     TypeAddedToUnion,
+    RootTypeChanged,
     TypeChangedKind,
     TypeRemoved,
     TypeRemovedFromInterface,
@@ -118,11 +119,24 @@ __all__ = (
     "TypeAdded",
     "TypeAddedToInterface",
     "TypeAddedToUnion",
+    "RootTypeChanged",
     "TypeChangedKind",
     "TypeRemoved",
     "TypeRemovedFromInterface",
     "TypeRemovedFromUnion",
 )
+
+
+def _diff_root_types(old: Schema, new: Schema) -> Iterator[SchemaChange]:
+    for operation, old_type, new_type in (
+        ("query", old.query_type, new.query_type),
+        ("mutation", old.mutation_type, new.mutation_type),
+        ("subscription", old.subscription_type, new.subscription_type),
+    ):
+        old_name = old_type.name if old_type is not None else None
+        new_name = new_type.name if new_type is not None else None
+        if old_name != new_name:
+            yield RootTypeChanged(operation, old_type, new_type)
 
 
 def _iterate_matching_pairs(
@@ -173,6 +187,7 @@ def diff_schema(
     new_schema.validate()
 
     diffs = [
+        _diff_root_types(old_schema, new_schema),
         _find_removed_types(old_schema, new_schema),
         _find_added_types(old_schema, new_schema),
         _diff_directives(old_schema, new_schema),
